@@ -154,3 +154,140 @@ Theorem cal_roundtrip_satisfiable :
                map c_name cals = ["a"; "b"]%string.
 Proof. exact Toy.box_roundtrip. Qed.
 Print Assumptions cal_roundtrip_satisfiable.
+
+(* ------------------------------------------------------------------------------------------------
+   legacy_versions and apply_same (session 5).  Models: CalFile/LegacyModel.v (the "#VNACAL 2.x" tree
+   generated from a container: "sets" / "calibrations", optional "type: E12", per frequency "f" and
+   "e" = rows x columns cells [el, er, em]); the loader side (version-line mapping 2.x -> major 0,
+   3.x -> 1.0; parse_old_e_matrix; optional type) is CalFile/CalFileModel.v as coded;
+   CalFile/LegacyApply.v (vnacal_apply's fill_* of Cal/ApplyModel.v on a loaded calibration).
+   ------------------------------------------------------------------------------------------------ *)
+Require Import LV.Cal.Sym LV.Cal.ApplyModel.
+Require Import LV.CalFile.LegacyModel LV.CalFile.LegacyProofs LV.CalFile.LegacyExamples.
+Require Import LV.CalFile.LegacyApply LV.CalFile.LegacyApplyProofs LV.CalFile.LegacyApplyExamples.
+
+Section LegacyVersions.
+  Variable num : Type.
+  Variable num0 : num.
+  Variable sc_int : Z -> scalar.
+  Variable sc_real : Z -> num -> scalar.
+  Variable sc_cx : Z -> (num * num) -> scalar.
+  Variable sc_name : string -> scalar.
+  Variable sc_type : ctype -> scalar.
+  Hypothesis int_rt : forall n, - 2147483648 <= n <= 2147483647 -> s_int (sc_int n) = Some n.
+  Hypothesis cx_accepted : forall p z, s_cx (sc_cx p z) = true.
+  Hypothesis name_text : forall n, s_text (sc_name n) = n.
+  Hypothesis type_rt : forall t, s_type (sc_type t) = Some t.
+
+  (* legacy_versions: for EVERY container the old format can express (every used slot an E12 calibration -
+     the only type of 2.x -, any rows >= columns, any number of frequencies, any slot vector with holes, any
+     precisions; wf_container as in save_load_doc), in either spelling st of the 2.x tree ("sets" or
+     "calibrations", with or without "type: E12") and for every minor version number:
+       the 2.x tree under "#VNACAL 2.<minor2>", the current document under "#VNACAL 3.<minor3>" and the
+       current document under "#VNACal 1.0" load to the SAME list of calibrations, namely the used slots
+       in slot order with every error-term cell [term][findex] carrying the text written for that term
+       (cell for cell, no bound; induction over rows, columns, triples and frequencies). *)
+  Theorem legacy_versions : forall st minor2 minor3 (v : container num),
+    wf_container num sc_real v -> all_e12 num (v_slots num v) ->
+    load (legacy_vline minor2) (Some (legacy_doc num num0 sc_int sc_real sc_cx sc_name sc_type st v))
+      = load save_vline (Some (save_doc num num0 sc_int sc_real sc_cx sc_name sc_type v)) /\
+    load (v3_vline minor3) (Some (save_doc num num0 sc_int sc_real sc_cx sc_name sc_type v))
+      = load save_vline (Some (save_doc num num0 sc_int sc_real sc_cx sc_name sc_type v)) /\
+    load save_vline (Some (save_doc num num0 sc_int sc_real sc_cx sc_name sc_type v))
+      = Ok (map (loaded_cal num num0 sc_real sc_cx (v_fprec num v) (v_dprec num v)) (live num (v_slots num v))).
+  Proof. exact (legacy_versions_models num num0 sc_int sc_real sc_cx sc_name sc_type int_rt cx_accepted name_text type_rt). Qed.
+
+  (* the heart of it: parse_old_e_matrix on the generated "e" of one frequency defines every term of an
+     E12 calibration of ANY dimensions rows, columns >= 0 with the text the current format carries *)
+  Theorem legacy_e_matrix_terms : forall dp (e : Z -> num * num) mr mc, 0 <= mr -> 0 <= mc ->
+    parse_old_e (mk_layout E12 mr mc) (old_e_node num sc_cx dp (mk_layout E12 mr mc) e) (blank (mk_layout E12 mr mc))
+    = Ok (loaded_cells num sc_cx dp (mk_layout E12 mr mc) e).
+  Proof. exact (parse_old_e_legacy num sc_cx cx_accepted). Qed.
+
+  (* apply_same, versions: the calibrations loaded from the three documents give the same vnacal_apply
+     result (apply model as coded, any arithmetic O, any reading val of the number texts) at every
+     frequency index and for every measured matrix *)
+  Theorem apply_same : forall (O : Ops) (val : string -> O) st minor2 minor3 (v : container num) cals2 cals3 cals1,
+    wf_container num sc_real v -> all_e12 num (v_slots num v) ->
+    load (legacy_vline minor2) (Some (legacy_doc num num0 sc_int sc_real sc_cx sc_name sc_type st v)) = Ok cals2 ->
+    load (v3_vline minor3) (Some (save_doc num num0 sc_int sc_real sc_cx sc_name sc_type v)) = Ok cals3 ->
+    load save_vline (Some (save_doc num num0 sc_int sc_real sc_cx sc_name sc_type v)) = Ok cals1 ->
+    forall findex m,
+      map (fun c => apply_loaded O val c findex m) cals2 = map (fun c => apply_loaded O val c findex m) cals1 /\
+      map (fun c => apply_loaded O val c findex m) cals3 = map (fun c => apply_loaded O val c findex m) cals1.
+  Proof.
+    exact (apply_same_versions_models num num0 sc_int sc_real sc_cx sc_name sc_type int_rt cx_accepted name_text type_rt).
+  Qed.
+
+  (* apply_same, round trip: a container saved with both precisions exact (MAX or >= 17) and loaded again
+     is applied exactly as the stored container is (every used slot, every frequency index, every m).
+     val_inj: the arithmetic value of a text is the injection of the double complex parse_complex reads. *)
+  Variable cls : num -> rclass.
+  Variable rd : Z -> num -> num.
+  Variable val_cx : string -> option (num * num).
+  Hypothesis real_rt : forall p x, s_real (sc_real p x) = cls (rd p x).
+  Hypothesis cx_rt : forall p z, val_cx (s_text (sc_cx p z)) = Some (rdc num rd p z).
+  Hypothesis num_rt : forall p x, exact_prec max_precision p = true -> rd p x = x.
+  Theorem apply_same_roundtrip_exact : forall (O : Ops) (val : string -> O) (inj : num * num -> O),
+    (forall s z, val_cx s = Some z -> val s = inj z) ->
+    forall v : container num,
+    exact_prec max_precision (v_fprec num v) = true -> exact_prec max_precision (v_dprec num v) = true ->
+    wf_container_stored num cls v ->
+    exists cals, load save_vline (Some (save_doc num num0 sc_int sc_real sc_cx sc_name sc_type v)) = Ok cals /\
+      forall findex m, map (fun l => apply_loaded O val l findex m) cals
+                       = map (fun k => apply_stored num num0 O inj k findex m) (live num (v_slots num v)).
+  Proof.
+    exact (fun O val inj val_inj =>
+             apply_same_roundtrip_models num num0 sc_int sc_real sc_cx sc_name sc_type int_rt cx_accepted name_text type_rt
+               O val cls val_cx inj val_inj max_precision rd real_rt cx_rt num_rt).
+  Qed.
+End LegacyVersions.
+Print Assumptions legacy_versions.
+Print Assumptions legacy_e_matrix_terms.
+Print Assumptions apply_same.
+Print Assumptions apply_same_roundtrip_exact.
+
+(* "#VNACAL 3.x" is "#VNACal 1.x" for EVERY document, well formed or not (version-line mapping as coded) *)
+Theorem v3_documents_load_as_v1 : forall minor3 minor1 d, load (v3_vline minor3) d = load (VNew 1 minor1) d.
+Proof. exact v3_is_v1. Qed.
+Print Assumptions v3_documents_load_as_v1.
+
+(* the loader model is total on legacy trees: whatever tree follows a "#VNACAL 2.x" line, the answer is
+   a classified error or a list of well-formed calibrations (every cell of every frequency defined) *)
+Theorem legacy_load_total_wf : forall minor d,
+  (exists cals, load (legacy_vline minor) d = Ok cals /\ Forall (fun c => wf_cal c = true) cals) \/
+  load (legacy_vline minor) d = Err EBadMsg \/ load (legacy_vline minor) d = Err ESys.
+Proof. exact legacy_load_total. Qed.
+Print Assumptions legacy_load_total_wf.
+
+(* the hypotheses of legacy_versions are met (toy number type; a container with a hole, an E12 2x1 with a
+   property sub-tree and an E12 2x2 with two frequencies; the compat-V2 spelling "sets" without "type") *)
+Theorem legacy_versions_satisfiable :
+  load (legacy_vline 0) (Some (ToyLegacy.legacy ToyLegacy.old_style)) = load save_vline (Some ToyLegacy.current) /\
+  load (v3_vline 7) (Some ToyLegacy.current) = load save_vline (Some ToyLegacy.current) /\
+  load save_vline (Some ToyLegacy.current)
+    = Ok (map (loaded_cal Toy.num false Toy.sc_real Toy.sc_cx 6 7) [Toy.e12; ToyLegacy.e12b]).
+Proof. exact ToyLegacy.oldbox_legacy_versions. Qed.
+Print Assumptions legacy_versions_satisfiable.
+
+(* what the old format cannot express is refused, as coded: "type: TE10" under "#VNACAL 2.x", and the
+   current document read under the 2.x line (no "e") *)
+Theorem legacy_other_type_refused :
+  load (legacy_vline 0) (Some ToyLegacy.te10_as_legacy) = Err EBadMsg /\
+  load (legacy_vline 0) (Some ToyLegacy.current) = Err EBadMsg.
+Proof. exact ToyLegacy.legacy_other_type_refused. Qed.
+Print Assumptions legacy_other_type_refused.
+
+(* apply_same is not vacuous: Gaussian rationals as arithmetic, the 2x2 E12 is applied (Filled) *)
+Theorem apply_same_satisfiable :
+  exists cals2 cals1,
+    load (legacy_vline 0) (Some (ToyLegacy.legacy ToyLegacy.old_style)) = Ok cals2 /\
+    load save_vline (Some ToyLegacy.current) = Ok cals1 /\
+    map (fun c => apply_loaded ToyApply.OQ ToyApply.val c 1 ToyApply.m22) cals2
+      = map (fun c => apply_loaded ToyApply.OQ ToyApply.val c 1 ToyApply.m22) cals1 /\
+    match map (fun c => apply_loaded ToyApply.OQ ToyApply.val c 1 ToyApply.m22) cals1 with
+    | [None; Some (Filled _ _ _)] => True
+    | _ => False
+    end.
+Proof. exact ToyApply.apply_same_versions_satisfiable. Qed.
+Print Assumptions apply_same_satisfiable.
